@@ -232,7 +232,11 @@ func (s *scanner) scanner(store *stor.Stor) {
 }
 
 func (s *scanner) stop() {
+	// set done while holding the lock so that getUpTo cannot check it
+	// and then miss the final Signal (lost wakeup)
+	s.lock.Lock()
 	atomic.StoreUint32(&s.done, 1)
+	s.lock.Unlock()
 }
 
 func (s *scanner) close() {
